@@ -58,9 +58,9 @@ Definition tbatch_of (b : MP.batch) : tbatch :=
   {| tb_n := Z.to_nat (MP.b_n b);
      tb_cols := map (fun c => (fst c, cdata_of (fst (snd c)))) (MP.b_cols b) |}.
 
-(* a row record as rowsToColumnar reads it.  When the columns of a group end up with different
-   lengths (a field named "time") the record count credited to the buffer is the length of
-   whichever column Go's map iteration visits first; the model takes the time column's. *)
+(* a row record as rowsToColumnar reads it.  Should the columns of a group end up with different
+   lengths, the record count credited to the buffer is the length of whichever column Go's map
+   iteration visits first; the model takes the time column's. *)
 Record rowrec := { rr_ts : Z; rr_fields : list (bytes * MP.gval); rr_tags : list (bytes * MP.tagv) }.
 
 Definition bmem (k : bytes) (l : list bytes) : bool := existsb (beqb k) l.
@@ -88,11 +88,41 @@ Definition tag_gval (t : option MP.tagv) : MP.gval :=
   | None => MP.GNil
   end.
 
+(* sort.Strings on the field names *)
+Fixpoint bins (x : bytes) (l : list bytes) : list bytes :=
+  match l with
+  | [] => [x]
+  | y :: r => if bltb x y then x :: l else y :: bins x r
+  end.
+Definition bsort (l : list bytes) : list bytes := fold_right bins [] l.
+
+(* the column of one field (ac0d5a8): the "_value" suffix is repeated until the name is taken neither
+   by a tag, nor by another field, nor by an earlier rename (which include the reserved "time").
+   The Go loop has no bound; a name is refused at most once per tag, field and earlier rename. *)
+Fixpoint pick_column (fuel : nat) (tags fields taken : list bytes) (field name : bytes) : bytes :=
+  match fuel with
+  | O => name
+  | S f =>
+      if negb (bmem name tags) && negb (bmem name taken) && (beqb name field || negb (bmem name fields))
+      then name else pick_column f tags fields taken field (name ++ s_value)
+  end.
+
+(* fieldColumn: fields in sorted order, each name added to [taken] *)
+Fixpoint assign_columns (tags fields : list bytes) (todo : list bytes) (taken : list bytes)
+  : list (bytes * bytes) :=
+  match todo with
+  | [] => []
+  | f :: r =>
+      let name := pick_column (S (length tags + length fields + length taken)) tags fields taken f f in
+      (f, name) :: assign_columns tags fields r (name :: taken)
+  end.
+
 Definition rows_to_columnar (rows : list rowrec) : MP.gcols :=
   let all_tags := bdedup (flat_map (fun r => map fst (rr_tags r)) rows) in
   let all_fields := bdedup (flat_map (fun r => map fst (rr_fields r)) rows) in
-  let fname := fun f => if bmem f all_tags then f ++ s_value else f in
-  let init := fold_left (fun cs f => col_reset (fname f) cs) all_fields
+  let fcol := assign_columns all_tags all_fields (bsort all_fields) [k_time] in
+  let fname := fun f => match alookup f fcol with Some n => n | None => f end in
+  let init := fold_left (fun cs f => col_reset (fname f) cs) (bsort all_fields)
                 (fold_left (fun cs t => col_reset t cs) all_tags [(k_time, [])]) in
   fold_left (fun cs r =>
                let cs1 := col_app k_time (MP.GInt MP.KI64 (rr_ts r)) cs in
